@@ -26,6 +26,9 @@ func vBytes(s string) any    { return map[string]any{"b": s} }
 func vList(e ...any) any     { return map[string]any{"l": nonNil(e)} }
 func vTuple(e ...any) any    { return map[string]any{"t": nonNil(e)} }
 func vRange(a, b, c int) any { return map[string]any{"r": []any{a, b, c}} }
+
+// vElems is "s".elems(): an iterable of one-character strings that has no length.
+func vElems(s string) any { return map[string]any{"e": s} }
 func vFn(name string) any    { return map[string]any{"f": name} }
 func vDict(kv ...any) any {
 	pairs := []any{}
@@ -111,6 +114,13 @@ func (h *helpers) toValue(x any) starlark.Value {
 			}
 			return r
 		}
+		if v, ok := x["e"]; ok {
+			r, err := starlark.Call(h.th, h.g["elems_of"], starlark.Tuple{starlark.String(v.(string))}, nil)
+			if err != nil {
+				fw.Fatal("c13: elems: %v", err)
+			}
+			return r
+		}
 		if v, ok := x["d"]; ok {
 			d := new(starlark.Dict)
 			for _, p := range v.([]any) {
@@ -154,7 +164,7 @@ func typeOfTagged(x any) string {
 	case string:
 		return "string"
 	case map[string]any:
-		for _, k := range []struct{ k, t string }{{"b", "bytes"}, {"l", "list"}, {"t", "tuple"}, {"r", "range"}, {"d", "dict"}, {"f", "function"}, {"absent", "absent"}} {
+		for _, k := range []struct{ k, t string }{{"b", "bytes"}, {"l", "list"}, {"t", "tuple"}, {"r", "range"}, {"e", "string.elems"}, {"d", "dict"}, {"f", "function"}, {"absent", "absent"}} {
 			if _, ok := x[k.k]; ok {
 				return k.t
 			}
@@ -308,6 +318,7 @@ def persist(x, u):
     n = x[:0] + u
     o = n + x
     return [x, u, a, b, c, d, e, f, g, h, i, j, k, m, n, o]
+def elems_of(s): return s.elems()
 def k_neg(x): return -x
 def k_first(t): return t[0]
 `
